@@ -665,7 +665,15 @@ func (se *symExec) execAssign(x *ast.AssignStmt, st *sstate) []*sstate {
 		case *ast.TypeAssertExpr:
 			for _, e := range se.eval(r.X, st) {
 				se.assignTo(x.Lhs[0], e.v, e.st, x.Pos(), "")
-				se.assignTo(x.Lhs[1], val{kind: vBool, desc: se.canon(r)}, e.st, x.Pos(), "")
+				desc := se.canon(r)
+				if se.tableMode {
+					// the operand of the assertion is shown by value (slot1.(py.Int)), not under the name of the local
+					// it happens to be held in
+					if vs := e.v.String(); vs != "" && vs != "?" && (e.v.kind != vUnknown || e.v.desc != "") {
+						desc = vs + ".(" + se.canon(r.Type) + ")"
+					}
+				}
+				se.assignTo(x.Lhs[1], val{kind: vBool, desc: desc}, e.st, x.Pos(), "")
 				out = append(out, e.st)
 			}
 			return out
@@ -2978,6 +2986,10 @@ func (se *symExec) evalBuiltin(name string, call *ast.CallExpr, st *sstate) []pa
 					as = append(as, a.String())
 				}
 				d = "append(" + strings.Join(as, ", ") + ")"
+				// appending to a literal is the longer literal: T{a, b} followed by append(x, c) is T{a, b, c}
+				if len(as) >= 2 && strings.HasPrefix(as[0], "composite[") && strings.HasSuffix(as[0], "]") && !call.Ellipsis.IsValid() {
+					d = strings.TrimSuffix(as[0], "]") + "," + strings.Join(as[1:], ",") + "]"
+				}
 			}
 			out = append(out, pathResult{r.st, []val{unk(d)}})
 		}
